@@ -397,6 +397,23 @@ def gen_parser_wire(rng):
     return b"".join(parts)[:24]
 
 
+STYLE_KW = ({"truncate_crypto": True}, {"want_generic": True}, {"txt_is_utf8": True}, {"base64_chunk_size": 0, "hex_chunk_size": 0},
+            {"base64_chunk_size": 7, "hex_chunk_size": 3, "truncate_crypto": True})
+
+
+def styled_text(ctx, entry, v, rep, what, **base):
+    """the documented text styles are part of 'can be rendered to text again'"""
+    # two of the styles per value (rotating), all of them for the directed crypto cases
+    k0 = ctx.evaluations % len(STYLE_KW)
+    kws = STYLE_KW if rep.get("case", {}).get("all_styles") else (STYLE_KW[k0], STYLE_KW[(k0 + 2) % len(STYLE_KW)])
+    for kw in kws:
+        cs, _, es = guarded(lambda: v.to_text(**base, **kw))
+        if cs == "FOREIGN:TypeError" and "unexpected keyword" in str(es):
+            return
+        if report(ctx, entry + ".styled", cs, rep, f"{what}: to_text({kw}) raised {es!r}"):
+            return
+
+
 def eval_case(ctx: Ctx, c: dict):
     k = c["kind"]
     rep = {"kind": k, "case": c}
@@ -465,6 +482,7 @@ def eval_case(ctx: Ctx, c: dict):
         if v is not None:
             c1, _, e1 = guarded(lambda: v.to_text(origin=origin, relativize=origin is not None))
             report(ctx, f"rdata.to_text/type{c['rdtype']}", c1, rep, f"to_text of rdata parsed from wire type {c['rdtype']} {wire.hex()} raised {e1!r}")
+            styled_text(ctx, f"rdata.to_text/type{c['rdtype']}", v, rep, f"rdata parsed from wire type {c['rdtype']} {wire.hex()}", origin=origin, relativize=origin is not None)
             c2, _, e2 = guarded(lambda: v.to_wire(origin=origin))
             report(ctx, f"rdata.to_wire/type{c['rdtype']}", c2, rep, f"to_wire of rdata parsed from wire type {c['rdtype']} {wire.hex()} raised {e2!r}")
     elif k == "edns.wire":
@@ -507,6 +525,7 @@ def eval_case(ctx: Ctx, c: dict):
         if v is not None:
             c1, _, e1 = guarded(lambda: v.to_text(origin=origin, relativize=origin is not None))
             report(ctx, f"rdata.to_text/type{c['rdtype']}", c1, rep, f"to_text of rdata parsed from text type {c['rdtype']} {t!r} raised {e1!r}")
+            styled_text(ctx, f"rdata.to_text/type{c['rdtype']}", v, rep, f"rdata parsed from text type {c['rdtype']} {t!r}", origin=origin, relativize=origin is not None)
             c2, _, e2 = guarded(lambda: v.to_wire(origin=origin or dns.name.root))
             report(ctx, f"rdata.to_wire/type{c['rdtype']}", c2, rep, f"to_wire of rdata parsed from text type {c['rdtype']} {t!r} raised {e2!r}")
     elif k == "zone.text":
@@ -546,6 +565,11 @@ def eval_case(ctx: Ctx, c: dict):
         if z is not None:
             c1, _, e1 = guarded(lambda: z.to_text(), zone_level=True)
             report(ctx, "zone.to_text", c1, rep, f"to_text of zone parsed from {t!r} raised {e1!r}")
+            if ctx.evaluations % 3 == 0:
+                for zkw in ({"sorted": False, "relativize": False}, {"want_comments": True, "want_origin": True}, {"nl": "\r\n"}):
+                    cz, _, ez = guarded(lambda: z.to_text(**zkw), zone_level=True)
+                    if report(ctx, "zone.to_text.styled", cz, rep, f"to_text({zkw}) of zone parsed from {t[:300]!r} raised {ez!r}"):
+                        break
     elif k == "rrsets.text":
         t = c["text"]
         cls, v, e = guarded(lambda: dns.zonefile.read_rrsets(t, origin="example." if c.get("origin") else None, relativize=bool(c.get("relativize")), name=c.get("name"), rdclass=c.get("rdclass", "IN"), default_ttl=c.get("default_ttl")), zone_level=True)
@@ -868,6 +892,20 @@ def generate(ctx: Ctx, scale: int, rng):
         c = {"kind": "parser", "wire": w.hex(), "cur": rng.choice([0, 0, 0, 1, 2, len(w), len(w) + 1]), "prog": prog, "lib": int(lib)}
         ctx.case(("parser", w, c["cur"], str(prog)), sample=c if len(str(prog)) < 120 else None)
         eval_case(ctx, c)
+    # records with key / signature / digest material: every algorithm number with material of 0..4 octets (the
+    # algorithm-specific code paths — key tags, truncated-crypto styles — see the shortest values the parsers accept)
+    for rt, head in ((48, "0100 03"), (60, "0101 03"), (25, "0200 03")):
+        for alg in (0, 1, 2, 3, 5, 8, 13, 15, 16, 253, 254, 255):
+            for klen in range(0, 5):
+                w = bytes.fromhex(head.replace(" ", "")) + bytes([alg]) + rng.bytes(klen)
+                c = {"kind": "rdata.wire", "rdclass": 1, "rdtype": rt, "wire": w.hex(), "origin": 0, "all_styles": 1}
+                ctx.case(("rw-crypto", rt, alg, klen, w))
+                eval_case(ctx, c)
+                if klen:
+                    import base64 as _b64
+                    c = {"kind": "rdata.text", "rdclass": 1, "rdtype": rt, "text": f"{256 + (rt == 25)} 3 {alg} {_b64.b64encode(w[4:]).decode()}", "origin": 0, "relativize": 0, "all_styles": 1}
+                    ctx.case(("rt-crypto", rt, alg, klen, w))
+                    eval_case(ctx, c)
     for _ in range(n(800)):
         t = soup(rng)
         c = {"kind": "tok", "text": t, "wl": rng.below(2), "wc": rng.below(2)}
